@@ -274,9 +274,14 @@ type geomDecoder struct {
 }
 
 func (gd *geomDecoder) decodePoint() (orb.Geometry, error) {
-	_, count, err := gd.cmdAndCount()
+	cmd, count, err := gd.cmdAndCount()
 	if err != nil {
 		return nil, err
+	}
+
+	// only moveTo counts are checked against the available data.
+	if cmd != moveTo {
+		return nil, errors.New("first command not a moveTo")
 	}
 
 	if count == 1 {
